@@ -554,7 +554,7 @@ def mlmi_cuts(L_):
     i_now, j_now = L_.outer(1)['i'], L_.i
     parts = lmi_row_parts(S0, H, tk, r0 + ridx(n1, i_now, j_now), mentry(m, i_now, j_now), i_now, j_now, z0, n0)
     A = H.A('mk:rowA')[tk][r0 + ridx(n1, i_now, j_now)]
-    Ai, Aj, Av = L_.var('A_i', 0), L_.var('A_j', 1), L_.var('A_val', 2)
+    Ai, Aj, Av = L_.var('A_i', 3), L_.var('A_j', 4), L_.var('A_val', 5)
     Hs = L_.H_start
     q = fresh('q', I)
     cur = ridx(n1, i_now, j_now)
